@@ -17,6 +17,7 @@ UTF8_PIECES = [
     "é".encode(), "ß".encode(), "€".encode(), "中".encode(), "\U0001F600".encode(), "\U00010348".encode(),
     b"\x80", b"\xbf", b"\xc0\x80", b"\xe0\x80\x80", b"\xed\xa0\x80", b"\xf4\x90\x80\x80", b"\xff", b"\xfe",
     b"\xc3", b"\xe2\x82", b"\xf0\x9f\x98", b"\\", b"\\x80",
+    b"\xef\xbb\xbf", b"\xef\xbb\xbf", b"\xef\xbb", b"\xff\xfe", b"\xfe\xff",        # byte-order marks (UTF-8 BOM = U+FEFF, an ordinary character of the output)
 ]
 
 
@@ -149,6 +150,10 @@ def wcap_tape(draw, total, p_none=0.0):
     if w and total > 8000:
         need = total // 3000 + 1
         w = [x if x == 0 else max(x, need) for x in w]
+    if w and draw(st.sampled_from([False, False, False, True])):
+        # now and then the link is busy: a call accepts nothing and reports 0 (the next call makes progress again)
+        w = list(w)
+        w.insert(draw(st.integers(0, len(w) - 1)), -1)
     return w
 
 
